@@ -311,6 +311,8 @@ RESTART:
 			left.errorf("can't assign a value of type %s to an entry of %s", getTypeString(right), value.Type())
 		}
 		value.SetMapIndex(key, right)
+	default:
+		left.errorf("can't assign to %q: %s is neither a struct nor a map", fields[lef], getTypeString(value))
 	}
 }
 
